@@ -156,6 +156,12 @@ pub fn run(a: &Args) {
             emit_iter(&mut sink, &v.to_ipp(), &mut n, 0);
         }
     }
+    for m in [17usize, 64, 100, 257, 1000] {
+        let ms: Vec<(String, AV)> = (0..m).map(|i| (format!("m{:03}{}", (i * 37) % m, if i % 3 == 0 { "Z" } else { "a" }), AV::Int(i as i32))).collect();
+        emit_iter(&mut sink, &AV::Coll(ms).to_ipp(), &mut n, 3);
+        let vs: Vec<AV> = (0..m).map(|i| if i % 5 == 0 { AV::Str("Keyword", format!("k{}", i)) } else { AV::Int(i as i32) }).collect();
+        emit_iter(&mut sink, &AV::Set(vs).to_ipp(), &mut n, 3);
+    }
     // wide collections with names whose byte order differs from other orders
     let tricky = ["b", "a", "B", "aa", "a-", "é", "z", "Z", "10", "9", "", "~"];
     for k in 2..tricky.len() {
